@@ -12,7 +12,7 @@ import ucd_spec
 ASSUMPTIONS = ['well-formed input = UnicodeData rows strictly ascending, First/Last lines paired, no row for U+10FFFE/U+10FFFF (noncharacters are never listed), property files listing each code point at most once per property',
                'ucd-parse (line syntax) and the text writer are inside the compared path (real generators run on real files), not inside the Lean model']
 TRUSTED = ['model of the generators in lean/Precis/Model/Generators.lean validated by running the real precis-tools generators on synthetic UCD directories and on the two pinned data sets']
-FACT_MODULES = ['Precis.Facts.Prof', 'Precis.Facts.Core']
+FACT_MODULES = ['Precis.Facts.Prof', 'Precis.Facts.Core', 'Precis.Props.C15Fold']
 GCS = ['Lu', 'Ll', 'Zs', 'Mn', 'Cc', 'Lo']
 BIDIS = ['L', 'R', 'NSM', 'ON']
 
@@ -20,9 +20,9 @@ BIDIS = ['L', 'R', 'NSM', 'ON']
 def gen_rows(rng, shape=None):
     """random well-formed rows: (lo, hi, gc, ccc, bidi, width)"""
     rows = []
-    cp = rng.choice([0, 0, 1, 5])
+    cp = rng.choice([0, 0, 1, 5, 0xD7F8, 0xDFF0])
     n = rng.randrange(0, 14)
-    top = rng.choice([0x60, 0x60, 0x400, 0x10FFFD])
+    top = rng.choice([0x60, 0x60, 0x400, 0x10FFFD]) if cp < 0x1000 else 0xE100
     for _ in range(n):
         if cp > top:
             break
@@ -142,7 +142,10 @@ def correspondence(ctx):
     inputs += [[], [S(0)], [S(5)], [S(0), S(1), S(2)], [S(0), S(2)], [R(0x10, 0x20)], [R(0x10, 0x20), S(0x21)], [R(0x10, 0x20), R(0x21, 0x30)], [R(0x10, 0x20), R(0x30, 0x40)],
                [R(0x3400, 0x4DB5, bidi='L'), S(0x4DB6, bidi='ON')], [R(0x10, 0x20, bidi='L'), R(0x30, 0x40, bidi='L'), S(0x41, bidi='R')], [S(0x5D0, bidi='R'), S(0x5D1, bidi='R')],
                [S(1, bidi='L'), S(2, bidi='R'), S(3, bidi='R'), S(5, bidi='R'), S(6, bidi='L')], [S(0x41, w=0x20), S(0x42), S(0x43, w=0x41)], [S(0x10FFFD)], [R(0x100000, 0x10FFFD)],
-               [S(1, 'Mn', ccc=9), S(2, 'Mn', ccc=9), S(4, 'Mn', ccc=9), R(0x10, 0x12, 'Mn', ccc=9)]]
+               [S(1, 'Mn', ccc=9), S(2, 'Mn', ccc=9), S(4, 'Mn', ccc=9), R(0x10, 0x12, 'Mn', ccc=9)],
+               # ranges overlapping the surrogate block (ucd-parse code points are not scalar values), singles inside it
+               [(0xD7F0, 0xE00F, 'Lu', 0, 'L', None, True)], [S(0xD7FF, 'Ll'), (0xD800, 0xDB7F, 'Cc', 0, 'L', None, True), (0xDB80, 0xDBFF, 'Cc', 0, 'L', None, True), (0xDC00, 0xDFFF, 'Mn', 9, 'NSM', None, True), (0xE000, 0xF8FF, 'Lu', 0, 'L', None, True)],
+               [S(0xD800, 'Zs'), S(0xDFFF, 'Zs'), S(0xE000, 'Zs')], [(0xDFF0, 0xE010, 'Zs', 0, 'R', None, True), S(0xE011, 'Zs', 'R')]]
     for _ in range(250 if ctx.tier == 'quick' else 4000):
         inputs.append(gen_rows(rng))
     lines = []
